@@ -92,6 +92,23 @@ class SnocList(SList):
         self.all_expr = getattr(rest, "all_expr", False)
 
 
+class ConcatList(SList):
+    """Several symbolic-length lists one after the other, then a few known values
+    (the *args of f(*a, *b, c))."""
+    def __init__(self, parts, suffix=()):
+        self.parts = list(parts)
+        self.suffix = list(suffix)
+
+        def elem(u):
+            from .interp import Unsupported
+            raise Unsupported("G-mode: element of a concatenated operand list at a symbolic index")
+        n = z3.IntVal(len(self.suffix))
+        for p_ in self.parts:
+            n = n + p_.length
+        SList.__init__(self, z3.simplify(n), elem, "concat(" + ",".join(p_.tag for p_ in self.parts) + f";{len(self.suffix)})")
+        self.all_expr = all(getattr(p_, "all_expr", False) for p_ in self.parts)
+
+
 class StarArgs:
     """`*slist` in a call."""
     def __init__(self, slist):
@@ -113,8 +130,9 @@ class QM:
         self.ext_done = {}
 
     def add_index(self, t, length):
-        if self.instantiating and not (z3.is_const(t) or (z3.is_app(t) and t.decl().kind() == z3.Z3_OP_UNINTERPRETED)):
-            return      # shifted indices met while instantiating (t + 1, ite ...) are not instantiated at in turn
+        if self.instantiating and not _shallow_index(t, 2):
+            return      # shifted indices (t + 1, ite ...) and nested index functions (sigma(sigma(w))) met while
+                        # instantiating are not instantiated at in turn
         if t.get_id() not in self.index_ids:
             self.index_ids.add(t.get_id())
             self.index_terms.append((t, length))
@@ -202,6 +220,16 @@ def qm(I):
     return I.ghost["qm"]
 
 
+def _shallow_index(t, depth):
+    """t is a constant, or an uninterpreted function applied to shallow indices (at most `depth`
+    applications deep): sigma(w), sigma(wU(n)) but not sigma(sigma(sigma(w)))."""
+    if z3.is_const(t):
+        return True
+    if depth == 0 or not (z3.is_app(t) and t.decl().kind() == z3.Z3_OP_UNINTERPRETED):
+        return False
+    return all(_shallow_index(c, depth - 1) for c in t.children())
+
+
 def _consts_of(t):
     out, todo = [], [t]
     while todo:
@@ -260,6 +288,9 @@ class ChildFamily:
         if key in I.ghost.setdefault("big_registered", set()) or keying():
             return
         I.ghost["big_registered"].add(key)
+        if cls_name in ("Negation", "Reciprocal", "Sine", "Cosine"):
+            I.ghost["big_registered"].discard(key)
+            return self.unary_refinement_facts(I, cls_name)
         if cls_name != "Constant":
             return
         from . import spec
@@ -271,6 +302,36 @@ class ChildFamily:
                 d = spec.den(I, self.child(I, t), pt)
                 facts = [d.D, d.V == valF(t)] + [d.dV(n) == 0 for n in I.ghost.get("ambient_names", [])]
                 return z3.Implies(self.tagF(t) == sym.CLS["Constant"], z3.And(*facts))
+            q.foralls.append((self.length, fact))
+
+    def inner_family(self, I):
+        """The `_inner` operands of those children that are unary nodes, as a family over the same
+        indices (inner(i) is meaningful only where child i is a unary node)."""
+        if getattr(self, "_inner_fam", None) is None:
+            self._inner_fam = ChildFamily(I, f"{self.name}._inner", self.length)
+        return self._inner_fam
+
+    def unary_refinement_facts(self, I, cls_name):
+        """For every i: if child i is a <cls_name> node then its variables and its denotation are
+        those of the spec table applied to inner(i) (the quantified form of contracts.refine)."""
+        key = ("refinement", self.name, cls_name)
+        if key in I.ghost.setdefault("big_registered", set()) or keying():
+            return
+        I.ghost["big_registered"].add(key)
+        from . import spec
+        inner = self.inner_family(I)
+        cls = I.prog.classes[cls_name]
+        q = qm(I)
+        q.foralls.append((self.length, lambda t: z3.Implies(self.tagF(t) == sym.CLS[cls_name], self.varsF(t) == inner.varsF(t))))
+        for pt in list(I.ghost.get("points", {}).values()):
+            def fact(t, pt=pt):
+                d = spec.den(I, self.child(I, t), pt)
+                templ = Obj(cls, f"{self.name}[{t}]~{cls_name}")
+                templ.fields["_inner"] = inner.child(I, t)
+                dt = spec._table_den(I, templ, pt)
+                facts = [d.D == dt.D, z3.Implies(d.D, d.V == dt.V)]
+                facts += [z3.Implies(d.D, d.dV(n) == dt.dV(n)) for n in I.ghost.get("ambient_names", [])]
+                return z3.Implies(self.tagF(t) == sym.CLS[cls_name], z3.And(*facts))
             q.foralls.append((self.length, fact))
 
     # denotation symbols per point
